@@ -196,6 +196,52 @@ func runC15(c *Ctx) {
 		}
 		c.Check(!bad && same && len(f.Locs(loose)) > 0 && len(f.Locs(packed)) > 0, r3, fi.Name(), fi.Decl.Pos(), "loose refs are collected first and packed refs are filtered through the same `seen` set")
 	}
+	// set-always-writes: a successful SetRef has written the loose file; a successful RemoveRef has consulted both the
+	// loose file and packed-refs (a shortcut that "knows" the value is already stored is wrong when a loose file shadows packed-refs)
+	const r5 = "set-always-writes"
+	if sr := c.MustFunc(r5, dotgitShort+".(*DotGit).SetRef"); sr != nil {
+		f := p.FlowOf(sr)
+		sink := func(n ast.Node) bool {
+			r, ok := n.(*ast.ReturnStmt)
+			if !ok || returnsNonNilError(info, sr.Decl.Body, r) {
+				return false
+			}
+			if len(r.Results) == 1 {
+				if call, ok := unparen(r.Results[0]).(*ast.CallExpr); ok && callsNamed(info, "setRef")(call) {
+					return false
+				}
+			}
+			return true
+		}
+		h := f.Search(SearchOpts{Starts: []Loc{f.Entry()}, Sink: sink, Barrier: CallNode(false, callsNamed(info, "setRef"))})
+		if h != nil {
+			c.Violate(r5, sr.Name(), h.Node.Pos(), "SetRef can report success without writing the reference (lines "+f.pathString(h)+")")
+		} else {
+			c.Hold(r5, sr.Name(), sr.Decl.Pos(), "every successful return is the result of the write")
+		}
+	}
+	if rr := c.MustFunc(r5, dotgitShort+".(*DotGit).RemoveRef"); rr != nil {
+		f := p.FlowOf(rr)
+		sink := func(n ast.Node) bool {
+			r, ok := n.(*ast.ReturnStmt)
+			if !ok || returnsNonNilError(info, rr.Decl.Body, r) {
+				return false
+			}
+			if len(r.Results) == 1 {
+				if call, ok := unparen(r.Results[0]).(*ast.CallExpr); ok && callsNamed(info, "rewritePackedRefsWithoutRef")(call) {
+					return false
+				}
+			}
+			return true
+		}
+		h := f.Search(SearchOpts{Starts: []Loc{f.Entry()}, Sink: sink, Barrier: CallNode(false, callsNamed(info, "rewritePackedRefsWithoutRef"))})
+		if h != nil {
+			c.Violate(r5, rr.Name(), h.Node.Pos(), "RemoveRef can report success without removing the name from packed-refs")
+		} else {
+			c.Hold(r5, rr.Name(), rr.Decl.Pos(), "every successful return went through the packed-refs rewrite")
+		}
+	}
+
 	// packed-line-shape
 	const r4 = "packed-line-shape"
 	if pl := c.MustFunc(r4, dotgitShort+".(*DotGit).processLine"); pl != nil {
@@ -321,6 +367,52 @@ func runC16(c *Ctx) {
 		}
 	}
 	c.Floor(r1, 2)
+
+	// no-unlink-under-lock: a writer holding the lock must not remove or rename the locked path: writers already
+	// blocked on the lock hold the old inode and would then "succeed" on a file nobody can see
+	const r1b = "no-unlink-under-lock"
+	unlinks := p.ComputeEffect(func(_ *types.Info, _ *ast.CallExpr, callee *types.Func) bool {
+		return isBillyMethod(callee, "Remove", "Rename")
+	}, EffectOpts{Skip: func(fn *types.Func) bool { return fn.Pkg() == nil || shortPkg(fn.Pkg().Path()) != dotgitShort }})
+	for _, fi := range p.FuncsIn(dotgitShort) {
+		if fi.Decl.Body == nil || p.isTestFile(fi.Decl.Pos()) || fi.Obj.Name() == "openAndLockPackedRefs" {
+			continue
+		}
+		f := p.FlowOf(fi)
+		locks := f.Locs(CallNode(false, calleeIs(info, lockQ)))
+		if len(locks) == 0 {
+			continue
+		}
+		isUnlink := func(n ast.Node) bool {
+			if _, isDefer := n.(*ast.DeferStmt); isDefer {
+				return nodeHasCall(n, true, func(call *ast.CallExpr) bool {
+					fn := Callee(info, call)
+					return isBillyMethod(fn, "Remove", "Rename") || (fn != nil && unlinks.Has[fn.Origin()])
+				}) != nil
+			}
+			return nodeHasCall(n, true, func(call *ast.CallExpr) bool {
+				fn := Callee(info, call)
+				return isBillyMethod(fn, "Remove", "Rename") || (fn != nil && unlinks.Has[fn.Origin()])
+			}) != nil
+		}
+		var hit *Hit
+		for _, l := range locks {
+			if h := f.Search(SearchOpts{Starts: []Loc{After(l)}, Sink: isUnlink}); h != nil {
+				hit = h
+			}
+		}
+		// deferred unlinks registered anywhere in a locking function also run while the lock is held
+		for _, l := range f.Locs(func(n ast.Node) bool { _, ok := n.(*ast.DeferStmt); return ok && isUnlink(n) }) {
+			hit = &Hit{Loc: l, Node: l.B.Nodes[l.Idx], Path: []*cfg.Block{l.B}}
+		}
+		c.Analysed(fi)
+		if hit != nil {
+			c.Violate(r1b, fi.Name(), hit.Node.Pos(), "the locked reference file can be removed or renamed while the lock is held; a writer blocked on the lock then updates an orphaned inode and reports success")
+		} else {
+			c.Hold(r1b, fi.Name(), fi.Decl.Pos(), "nothing removes or renames a file between Lock and the deferred Close")
+		}
+	}
+	c.Floor(r1b, 1)
 
 	// cas-critical-section
 	const r2 = "cas-critical-section"
@@ -518,6 +610,36 @@ func runC21(c *Ctx) {
 		}
 		c.Check(!bad && len(f.Locs(rename)) == 1 && len(f.Locs(create)) >= 2, r2, sv.Name(), sv.Decl.Pos(), "the .pack rename is the last step: every sidecar is written before it")
 	}
+	// pack-unpublish: a pack is discovered by its .pack file, so when a pack is deleted the .pack goes first;
+	// an .idx without its pack is ignored, a pack without its .idx makes every lookup fail
+	if del := c.MustFunc(r2, dotgitShort+".(*DotGit).DeleteOldObjectPackAndIndex"); del != nil {
+		f := p.FlowOf(del)
+		d := newDeriver(dinfo, del.Decl)
+		isPackPath := func(e ast.Expr) bool {
+			exprs := []ast.Expr{e}
+			if o := objOf(dinfo, e); o != nil {
+				exprs = append(exprs, d.defs[o]...)
+			}
+			for _, x := range exprs {
+				if call, ok := unparen(x).(*ast.CallExpr); ok && callsNamed(dinfo, "objectPackPath")(call) && len(call.Args) == 2 {
+					if tv := dinfo.Types[call.Args[1]]; tv.Value != nil && tv.Value.ExactString() == `"pack"` {
+						return true
+					}
+				}
+			}
+			return false
+		}
+		rmPack := CallNode(false, func(call *ast.CallExpr) bool {
+			return isBillyMethod(Callee(dinfo, call), "Remove") && len(call.Args) == 1 && isPackPath(call.Args[0])
+		})
+		rmOther := CallNode(false, func(call *ast.CallExpr) bool {
+			return isBillyMethod(Callee(dinfo, call), "Remove") && len(call.Args) == 1 && !isPackPath(call.Args[0])
+		})
+		h := f.Search(SearchOpts{Starts: []Loc{f.Entry()}, Sink: rmOther, Barrier: rmPack})
+		c.Check(h == nil && len(f.Locs(rmPack)) > 0 && len(f.Locs(rmOther)) > 0, r2, del.Name()+":pack-removed-first", del.Decl.Pos(),
+			"when a pack is deleted its .pack file is removed before the .idx/.rev/.promisor sidecars (a crash in between leaves an ignorable orphan index, not an unindexed pack)")
+	}
+
 	// delete-after-close
 	const r3 = "delete-after-close"
 	if cn := c.MustFunc(r3, "git.(*Repository).createNewObjectPack"); cn != nil {
@@ -603,6 +725,85 @@ func runC22(c *Ctx) {
 		c.Check(ok, r1, fi.Name()+":delete-after-walk", fi.Decl.Pos(), "objects are deleted only after the reachability walk succeeded")
 	}
 	c.Floor(r1, 4)
+
+	// walk-covers-links: in the walker, once a commit's tree has been walked, no successful return is reachable without
+	// entering the loop over its parents (except on the shallow-boundary edge); tree entries and tag targets are walked too
+	const r1c = "walk-covers-links"
+	commitT := p.lookupType("plumbing/object", "Commit")
+	parentsF, treeHashF := fieldOf(commitT, "ParentHashes"), fieldOf(commitT, "TreeHash")
+	nWalk := 0
+	for _, fi := range p.FuncsIn("git") {
+		if tn := recvTypeName(fi.Obj); tn == nil || tn.Name() != "objectWalker" || fi.Decl.Body == nil {
+			continue
+		}
+		mentions := func(n ast.Node, fld *types.Var) bool {
+			found := false
+			ast.Inspect(n, func(x ast.Node) bool {
+				if sel, ok := x.(*ast.SelectorExpr); ok && info.Uses[sel.Sel] == fld {
+					found = true
+				}
+				return !found
+			})
+			return found
+		}
+		if parentsF == nil || !mentions(fi.Decl.Body, parentsF) {
+			continue
+		}
+		nWalk++
+		c.Analysed(fi)
+		f := p.FlowOf(fi)
+		starts := f.Locs(func(n ast.Node) bool {
+			if _, isCase := n.(*ast.CaseClause); isCase {
+				return false
+			}
+			return mentions(n, treeHashF)
+		})
+		isParentLoop := func(b *cfg.Block) bool {
+			rs, ok := b.Stmt.(*ast.RangeStmt)
+			return ok && (b.Kind == cfg.KindRangeLoop || b.Kind == cfg.KindRangeBody) && mentions(rs.X, parentsF) && !isSubSlice(rs.X)
+		}
+		okCover := len(starts) > 0
+		why := ""
+		for _, s := range starts {
+			h := f.Search(SearchOpts{Starts: []Loc{After(s)},
+				Sink: func(n ast.Node) bool {
+					r, ok := n.(*ast.ReturnStmt)
+					return ok && !returnsNonNilError(info, fi.Decl.Body, r) && !(len(r.Results) == 1 && objOf(info, r.Results[0]) != nil && objOf(info, r.Results[0]).Name() == "err")
+				},
+				BlockEdge: func(b *cfg.Block, i int) bool {
+					if isParentLoop(b.Succs[i]) {
+						return true
+					}
+					for _, fact := range f.EdgeFacts(b, i) {
+						if o := objOf(info, fact.Atom); o != nil && o.Name() == "shallow" && fact.Truth {
+							return true
+						}
+					}
+					return false
+				}})
+			if h != nil {
+				okCover, why = false, "after walking a commit's tree the walk can finish successfully without visiting all of its parents (lines "+f.pathString(h)+")"
+			}
+		}
+		c.Check(okCover, r1c, fi.Name()+":commit-parents", fi.Decl.Pos(), orStr(why, "every parent of a walked commit is visited (except beyond the shallow boundary)"))
+	}
+	if nWalk == 0 {
+		c.Unresolved(r1c, "git.objectWalker:commit-walk", 0, "no objectWalker method handling Commit.ParentHashes found")
+	}
+	if wt := p.Func("git.(*objectWalker).walkObjectTree"); wt != nil {
+		tagT := p.lookupType("plumbing/object", "Tag")
+		treeT := p.lookupType("plumbing/object", "Tree")
+		for name, fld := range map[string]*types.Var{"tag-target": fieldOf(tagT, "Target"), "tree-entries": fieldOf(treeT, "Entries")} {
+			used := false
+			ast.Inspect(wt.Decl.Body, func(x ast.Node) bool {
+				if sel, ok := x.(*ast.SelectorExpr); ok && info.Uses[sel.Sel] == fld {
+					used = true
+				}
+				return !used
+			})
+			c.Check(used && fld != nil, r1c, wt.Name()+":"+name, wt.Decl.Pos(), "the walk follows "+name)
+		}
+	}
 
 	// prune-only-unseen
 	const r2 = "prune-only-unseen"
